@@ -385,8 +385,68 @@ def test_segy_stub(rng, n=3):
     return ok
 
 
+def test_fp_encoding(rng, n=60):
+    """The float world (symx.symfloat / symx.fpworld, shims.lazyarr arange/rint) on concrete inputs vs real numpy: the
+    z3 FP terms built by the SAME operators the symbolic run uses are evaluated by z3 and compared bit for bit with
+    what numpy computes for the writer's interval expression, segyio's sample axis and the reader's axis."""
+    import z3
+    from symx.symfloat import SymFloat, to_fp
+    from symx import fpworld
+    fpworld.reset()
+    RNE = z3.RNE()
+
+    def val(x):
+        t = z3.simplify(x.t if isinstance(x, SymFloat) else x)
+        bits = z3.simplify(z3.fpToIEEEBV(t))
+        if not z3.is_bv_value(bits):
+            raise Mismatch('fp term did not evaluate: %s' % str(t)[:80])
+        return struct.unpack('<d', struct.pack('<Q', bits.as_long()))[0]
+
+    done = 0
+    for _ in range(n):
+        dt = rng.choice([1, 333, 1001, 1292, 1988, 4000, 65535, rng.randint(1, 65535)])
+        t0 = rng.choice([0, 7, -129, -32768, 32767, rng.randint(-32768, 32767)])
+        k = rng.randint(0, 300)
+        cnt = rng.randint(2, 300)
+        # segyio: samples = arange(n) * (dt / 1000.0) + t0
+        step = SymFloat(to_fp(dt)) / 1000.0
+        sk = step * k + t0
+        real = (np.arange(k + 1) * (dt / 1000.0) + t0)[k]
+        if np.float64(val(sk)).tobytes() != np.float64(real).tobytes():
+            raise Mismatch('samples[k] dt=%d t0=%d k=%d: %r vs %r' % (dt, t0, k, val(sk), real))
+        # writer: 1000.0 * (s1 - s0), truncated / rounded
+        s0, s1 = step * 0 + t0, step * 1 + t0
+        x = (s1 - s0) * 1000.0
+        rs = np.arange(2) * (dt / 1000.0) + t0
+        rx = 1000.0 * np.array(rs[1] - rs[0])
+        if np.float64(val(x)).tobytes() != np.float64(rx).tobytes():
+            raise Mismatch('interval expression dt=%d t0=%d' % (dt, t0))
+        for mode, got, want in (('trunc', x.trunc_int(), int(rx.astype(int))), ('rint', x.rint().trunc_int(), int(np.rint(rx)))):
+            g = got if isinstance(got, int) else z3.simplify(fpworld.to_bv(got.t)).as_signed_long()
+            if g != want:
+                raise Mismatch('%s dt=%d t0=%d: %d vs %d' % (mode, dt, t0, g, want))
+        # reader, both formulations: arange(start, start + step*count, step) and start + step*arange(count)
+        rate = dt / 1000
+        ra = np.arange(t0, t0 + rate * cnt, rate)
+        la = lazyarr._arange_fp(t0, SymFloat(to_fp(t0)) + step * cnt, step)
+        ln = la.shape[0]
+        ln = ln if isinstance(ln, int) else z3.simplify(fpworld.to_bv(ln.t)).as_signed_long()
+        if ln != len(ra):
+            raise Mismatch('arange length dt=%d t0=%d n=%d: %d vs %d' % (dt, t0, cnt, ln, len(ra)))
+        kk = min(k, len(ra) - 1)
+        if np.float64(val(la.get((kk,)))).tobytes() != np.float64(ra[kk]).tobytes():
+            raise Mismatch('arange element dt=%d t0=%d k=%d' % (dt, t0, kk))
+        rb = (t0 + rate * np.arange(cnt))[min(k, cnt - 1)]
+        vb = step * min(k, cnt - 1) + t0
+        if np.float64(val(vb)).tobytes() != np.float64(rb).tobytes():
+            raise Mismatch('start + step*arange dt=%d t0=%d' % (dt, t0))
+        done += 5
+    fpworld.reset()
+    return done
+
+
 PARTS = dict(lazybytes=test_lazybytes, lazyarr=test_lazyarr, struct=test_struct, lru=test_lru, zfpy=test_zfpy_contract,
-             reader=test_reader_translation, segy=test_segy_stub)
+             reader=test_reader_translation, segy=test_segy_stub, fp=test_fp_encoding)
 
 
 def run(parts, tier='quick', seed=0):
